@@ -64,7 +64,9 @@ PROPS["C12"] = dict(
          ">= 3 operations with a mutation, or a parsed string with a special byte; distinct by hash",
     codes={"Diff1": "model replay differs from the observations", "Diff2": "model parse differs from new URLSearchParams(q)",
            "SpecFail1": "observations differ from the WHATWG list (or toString()+parse does not give the same list)",
-           "SpecFail2": "new URLSearchParams(q) differs from the WHATWG urlencoded parser"},
+           "SpecFail2": "new URLSearchParams(q) differs from the WHATWG urlencoded parser",
+           "Implcopy-shares-state-with-its-source": "operations on new URLSearchParams(other) changed what `other` lists",
+           "Implhistory-threw": "a history threw"},
     trusted=["goja: iteration protocol, Array.from, JSON.stringify of results, UTF-16 <-> UTF-8 conversion of well-formed strings", "sort.Stable"],
     assumptions=["%XX runs decoding to ill-formed UTF-8 are outside the round-trip claim", "names in record constructors are distinct and not integer-like"],
 )
